@@ -432,6 +432,9 @@ func runC10(c *Check) {
 		}
 	}
 	c.MinInstances("C10-R7", 2)
+	c.Doc("C10-R8", "EO: in Next, after the head was removed from the in-memory queue every return hands the batch out (no error return after the pop).")
+	rulePoppedBatchHandedOut(c, p, "C10-R8")
+	c.MinInstances("C10-R8", 1)
 	c.MinInstances("C10-R1", 2)
 	c.MinInstances("C10-R2", 1)
 	c.MinInstances("C10-R3", 1)
@@ -921,6 +924,9 @@ func runC11(c *Check) {
 			c.Bad("C11-R4", "single.GetNextBatch ⟂ durable-delete-on-hand-out", fnName(d.Ctx.Fn), sp.InstrPos(d.In), "the batch is deleted from the durable queue in the same call that hands it to the node; the node saves the block later: a crash in between loses the batch's transactions (they are already marked seen by the reaper)", nil)
 		}
 	}
+	c.Doc("C11-R6", "= C10-R8: the sequencer's queue never returns an error after it removed the head from memory (the batch would be neither delivered nor kept).")
+	rulePoppedBatchHandedOut(c, sp, "C11-R6")
+	c.MinInstances("C11-R6", 1)
 	c.MinInstances("C11-R1", 2)
 	c.MinInstances("C11-R5", 1)
 	c.MinInstances("C11-R2", 1)
@@ -1003,4 +1009,33 @@ func orderByKeyIn(v ssa.Value, depth int) bool {
 		}
 	}
 	return false
+}
+
+// rulePoppedBatchHandedOut: in BatchQueue.Next, once the head was removed from the in-memory
+// queue every return hands that batch out (non-nil). A return with nil (an error path after the
+// pop) drops the batch from memory although it was neither delivered nor re-queued: its
+// transactions, already marked seen by the reaper, never reach a block while the node runs, and
+// the entry left on disk re-appears out of order after a restart.
+func rulePoppedBatchHandedOut(c *Check, p *Prog, rule string) {
+	next := p.MustFunc("(*" + singlePkg + ".BatchQueue).Next")
+	g := BuildECFG(p, next, ExpandOpts{MaxDepth: 0})
+	c.NoteGraph(g)
+	pops := g.Select(fieldStoreTo(g, "queue"))
+	if len(pops) == 0 {
+		c.Unk(rule, "Next ⟂ popped-batch-is-handed-out", fnName(next), "", "anchor lost: Next does not write the queue")
+		return
+	}
+	var nilExits []*Node
+	for _, x := range g.Exits {
+		ret := x.In.(*ssa.Return)
+		if len(ret.Results) == 0 {
+			continue
+		}
+		if k, ok := spilledResult(ret, 0).(*ssa.Const); ok && k.Value == nil {
+			nilExits = append(nilExits, x)
+		}
+	}
+	c.Decide(rule, "Next ⟂ popped-batch-is-handed-out", fnName(next), p.InstrPos(pops[0].In), "after the head was removed from the in-memory queue every return hands the batch out",
+		"after the head was removed from the in-memory queue Next can return no batch (an error path): the batch is neither delivered nor kept, so its transactions are lost while the node runs and re-appear out of order after a restart", g,
+		g.PathAvoiding(pops, nodeSet(nilExits), nil))
 }
